@@ -117,4 +117,22 @@ RefTau(r) ==
               hd == FAtom(r.head.a.p, vs)
               extra == IF r.head.k = "choice" THEN <<[k |-> "not", f |-> [k |-> "not", f |-> hd]]>> ELSE <<>>
           IN Close([j \in 1..n |-> QV(W(j), "g")] \o xs, [k |-> "imp", l |-> ConjAll(hv.fs \o b.fs \o extra), r |-> hd])
+
+\* ---------------------------------------------------------------- gamma (translating/classical_reduction/gamma.rs)
+\* gamma(p(t)) = hp(t);  gamma(not F) = not F^t;  gamma(F op G) = gamma(F) op gamma(G) for and / or;
+\* gamma(F => G) = (gamma(F) => gamma(G)) and (F^t => G^t) for the three arrows;  quantifiers are kept
+RECURSIVE Copy(_, _), RefGamma(_)
+Copy(f, pfx) ==
+  CASE f.k = "atom" -> [f EXCEPT !.p = pfx \o f.p]
+    [] f.k \in {"true", "false", "cmp"} -> f
+    [] f.k = "not" -> [f EXCEPT !.f = Copy(f.f, pfx)]
+    [] f.k \in {"forall", "exists"} -> [f EXCEPT !.f = Copy(f.f, pfx)]
+    [] OTHER -> [f EXCEPT !.l = Copy(f.l, pfx), !.r = Copy(f.r, pfx)]
+RefGamma(f) ==
+  CASE f.k \in {"atom", "true", "false", "cmp"} -> Copy(f, "h")
+    [] f.k = "not" -> [k |-> "not", f |-> Copy(f.f, "t")]
+    [] f.k \in {"and", "or"} -> [k |-> f.k, l |-> RefGamma(f.l), r |-> RefGamma(f.r)]
+    [] f.k \in {"imp", "rimp", "iff"} -> [k |-> "and", l |-> [k |-> f.k, l |-> RefGamma(f.l), r |-> RefGamma(f.r)],
+                                                       r |-> [k |-> f.k, l |-> Copy(f.l, "t"), r |-> Copy(f.r, "t")]]
+    [] OTHER -> [f EXCEPT !.f = RefGamma(f.f)]
 =============================================================================
